@@ -265,6 +265,68 @@ example : (pull cfgW toyHash 0 regAB scF6 st0).1 ≠ .ok () ∧
     (pull cfgW toyHash 0 regAB ⟨[.notfound], [], []⟩ st0).1 = .err .manifest ∧
     (pull cfgW toyHash 0 regAB ⟨[.notfound], [], []⟩ st0).2.2.renamed = [] := by decide
 
+/-! ## Retry -/
+
+/-- the registry really has what its manifest names -/
+def HonestReg (hash : Bytes → Digest) (reg : Registry) : Prop :=
+  ∀ l ∈ reg.manifest.all, ∃ d c, l.digest = .ok d ∧ lookupC d reg.content = some c ∧ hash c = d
+
+/-- no resume state for the layers that are still missing -/
+def CleanFor (st : Store) (reg : Registry) : Prop :=
+  ∀ l ∈ reg.manifest.all, ∀ d, l.digest = .ok d → st.blobs d = none → st.partials d = Partial.none
+
+/-- **A retry can succeed**: against an honest registry (no faults at all), from every store whose
+    blobs are intact and that holds no resume state for the missing layers, for every manifest (any
+    number of layers, repeated digests allowed), every blob size and every plan constants with
+    positive part sizes and at least one try, `pull` reports success.
+    (From a store WITH resume state this is false: `stuck_plan_never_recovers`.) -/
+theorem retry_can_succeed (cfg : Cfg) (hash : Bytes → Digest) (name : Name) (reg : Registry) (st : Store)
+    (hret : 0 < cfg.retries) (hmin : 0 < cfg.minSize) (hmax : 0 < cfg.maxSize)
+    (hreg : HonestReg hash reg) (hinv : BlobInv hash st) (hclean : CleanFor st reg) :
+    (pull cfg hash name reg Scripts.honest st).1 = .ok () := by
+  obtain ⟨s', hdl, hb'⟩ := dlLoop_honest cfg hash reg hret hmin hmax reg.manifest.all
+    ⟨st, { tok := [], nm := 1 }, [], []⟩ hreg hinv hclean
+  have hpresent : ∀ l ∈ reg.manifest.all, ∀ d, l.digest = .ok d → ∃ c, s'.st.blobs d = some c := by
+    intro l hl d hd
+    obtain ⟨d', c, hd', hc, _⟩ := dlLoop_ok_all _ hdl l hl
+    rw [hd] at hd'; cases hd'; exact ⟨c, hc⟩
+  have hv := verifyLoop_honest hash s'.skip reg.manifest.all s'.st hb' hpresent
+  have hdl' : dlLoop cfg reg ⟨[], [], []⟩ reg.manifest.all ⟨st, { tok := [], nm := 1 }, [], []⟩ = (.ok (), s') := hdl
+  show (pull cfg hash name reg ⟨[], [], []⟩ st).1 = .ok ()
+  simp only [pull, mrr_pass, hdl', hv]
+
+/-- non-vacuity of `retry_can_succeed` -/
+example : HonestReg toyHash regAB ∧ BlobInv toyHash st0 ∧ CleanFor st0 regAB := by
+  refine ⟨?_, st0_inv.1, ?_⟩
+  · intro l hl
+    simp only [regAB, Manifest.all] at hl
+    simp at hl
+    rcases hl with rfl | rfl
+    · exact ⟨dA, cA, rfl, by decide, by decide⟩
+    · exact ⟨dB, cB, rfl, by decide, by decide⟩
+  · intro l _ d _ _; rfl
+
+/-- **Witness (stuck plan)**: one HEAD answer with a Content-Length larger than the blob (5 for a
+    2-byte blob) is persisted as the part plan; after that, a pull against the honest registry
+    fails with `max retries exceeded` and leaves exactly the same resume state — so does the next. -/
+def regA : Registry := ⟨⟨[⟨.ok dA, 2⟩], ⟨.empty, 0⟩⟩, [(dA, cA)], [0]⟩
+def scLie : Scripts := ⟨[], [], [(dA, ⟨[.pass 5], [], []⟩)]⟩
+
+theorem stuck_plan_never_recovers :
+    let r1 := pull cfgW toyHash 0 regA scLie st0
+    let r2 := pull cfgW toyHash 0 regA Scripts.honest r1.2.1
+    let r3 := pull cfgW toyHash 0 regA Scripts.honest r2.2.1
+    r1.1 = .err .maxRetries ∧ r1.2.1.partials dA = ⟨some [1, 10, 0, 0, 0], [⟨0, 5, 0⟩]⟩ ∧
+    r2.1 = .err .maxRetries ∧ r2.2.1.partials dA = r1.2.1.partials dA ∧ r2.2.1.blobs dA = none ∧
+    r3.1 = .err .maxRetries ∧ r3.2.1.partials dA = r1.2.1.partials dA ∧
+    HonestReg toyHash regA ∧ BlobInv toyHash st0 := by
+  refine ⟨by decide, by decide, by decide, by decide, by decide, by decide, by decide, ?_, st0_inv.1⟩
+  intro l hl
+  simp only [regA, Manifest.all] at hl
+  simp at hl
+  subst hl
+  exact ⟨dA, cA, rfl, by decide, by decide⟩
+
 /-- **Witness (repeated digest)**: `skipVerify` is keyed by digest and the second occurrence is a cache
     hit, so a freshly downloaded corrupt blob is never verified and the pull succeeds. -/
 theorem dup_digest_skips_verification :
